@@ -116,7 +116,7 @@ C20Problems(ev) ==
                 THEN {} ELSE {"an external variable does not have exactly one placeholder equation"})
           \cup (IF \A i \in DOMAIN m.eqs : m.eqs[i].type = "external" => \E k \in DOMAIN nv : nv[k].type = "external" /\ m.eqs[i].vars = <<nv[k].id>> THEN {} ELSE {"an external equation that belongs to no external variable"})
           \cup (IF \A n \in ClassNamesOf(sys) \ ext : Untouched(sys, n) =>
-                    /\ HasName(nv, n) /\ ByName(nv, n).type = VarType(Get(sys, n))
+                    /\ HasName(nv, n) /\ (ReadsUT(sys, n, 6) \/ ByName(nv, n).type = VarType(Get(sys, n)))    \* (what reads an implicit unknown: typed as the unmarked analysis types it)
                     /\ (plainValid /\ HasName(pv, n) => ByName(nv, n).type = ByName(pv, n).type /\ ByName(nv, n).kind = ByName(pv, n).kind /\ EqTypeOf(m, ByName(nv, n)) = EqTypeOf(p, ByName(pv, n)))
                 THEN {} ELSE {"a variable that does not depend on the external variables changed type or equation"})
           \cup (IF (sys.nla # NoneS /\ "u" \notin ext) => (HasName(nv, "u") /\ plainValid /\ HasName(pv, "u") /\ ByName(nv, "u").type = ByName(pv, "u").type /\ EqTypeOf(m, ByName(nv, "u")) = {"nla"}) THEN {} ELSE {"the implicit unknown changed type or equation"})
